@@ -16,7 +16,8 @@ VARIABLES inner,          \* "run" | "exited"
           written, closedIn, handed, dropped, inflight, outn, fbn
 avars == <<inner, stopped, grace, written, closedIn, handed, dropped, inflight, outn, fbn>>
 
-Init == /\ inner = "run" /\ stopped = FALSE /\ grace = FALSE /\ written = 0 /\ closedIn = FALSE
+\* v2 has no stop and is "graceful" from the start: grace may be TRUE initially
+Init == /\ inner = "run" /\ stopped = FALSE /\ grace \in BOOLEAN /\ written = 0 /\ closedIn = FALSE
         /\ handed = 0 /\ dropped = 0 /\ inflight = 0 /\ outn = 0 /\ fbn = 0
 
 Send ==    /\ inner = "run" /\ inflight < H /\ handed + dropped < written
